@@ -35,6 +35,7 @@ class _Stop(Exception):
     """a hang-type violation was recorded: do not spend more ceilings on this case"""
 
 
+CTOR_FLAG = [True]   # does the next session object track a resource in its constructor (set by the harness per connection)
 CTOR_RES = {}     # session serial -> resource tracked by the session object's constructor
 REG = {}          # token -> list of Resource
 SESS = {}         # token -> (weakref to session instance, serial)
@@ -94,10 +95,12 @@ def _classes():
             with LOCK:
                 SERIAL[0] += 1
                 self.serial = SERIAL[0]
-            # a session object may acquire a resource for its connection right in its constructor
-            self.res = Resource("ctor-%d" % self.serial)
-            CTOR_RES[self.serial] = self.res
-            current_context.track_resource(self.res)
+            # a session object may acquire a resource for its connection right in its constructor (or not: then a connection that
+            # tracks nothing else ends with NOTHING tracked and must still let its session object go)
+            if CTOR_FLAG[0]:
+                self.res = Resource("ctor-%d" % self.serial)
+                CTOR_RES[self.serial] = self.res
+                current_context.track_resource(self.res)
 
         def touch(self, token):
             with LOCK:
@@ -109,7 +112,7 @@ def _classes():
 ENDINGS = ["orderly", "abort-offset", "fin-offset", "bad-magic", "oversize", "undecodable-then-close", "security", "error-then-abort", "stay-open"]
 
 conn_spec = st.fixed_dictionaries({
-    "track": st.integers(0, 3), "untrack": st.integers(0, 3), "session": st.booleans(), "streams": st.sampled_from([0, 0, 1, 2]),
+    "track": st.integers(0, 3), "untrack": st.integers(0, 3), "session": st.booleans(), "ctor_res": st.booleans(), "streams": st.sampled_from([0, 0, 1, 2]),
     "ending": st.sampled_from(ENDINGS + ["abort-offset", "fin-offset", "security"]),
     "offset": st.integers(0, 200), "ser": st.sampled_from(["marshal", "json", "serpent", "msgpack"]),
 })
@@ -203,6 +206,7 @@ def run_case(case, servertype=None, commtimeout=None, keep=False):
             if c["untrack"]:
                 call(info, "res", "untrack", token, c["untrack"])
             if c["session"]:
+                CTOR_FLAG[0] = bool(c.get("ctor_res", True))
                 r = call(info, "sess", "touch", token)
                 if not isinstance(r, dict) or r["flags"] & wire.F_EXCEPTION:
                     viol("harness:session", "session call failed: %r" % (r,))
@@ -403,6 +407,8 @@ def _labels(case):
             l.append("has-tracked")
         if c["session"]:
             l.append("has-session")
+            if not c.get("ctor_res", True) and c["track"] <= c["untrack"]:
+                l.append("session-and-nothing-tracked-at-the-end")
         if c.get("streams"):
             l.append("has-open-stream" + (":linger0" if case.get("linger0") else ":linger"))
     return l
